@@ -247,18 +247,27 @@ def pick_cxs(srt, e, v, rnd, n_extra=1):
 
 def replay_rows(rep, rows, uni, pool, rnd, source, sample_every=9973):
     failures = []
+    texty_sort = {"str": True, "lstr": True}
     for row in rows:
         e, srt = row["e"], row["srt"]
         nontriv = mc.depth_of(e) >= 2
+        # facts that depend on the expression only are computed once per row
+        var = variants_for(e, {"k": "dict" if srt == "dict" else srt}, rnd)
+        if srt == "path" or not (texty_sort.get(srt) or mc.has_text(e)):
+            others = []
+        else:
+            others = [c for c in mc.CX_ALL[1:] if mc.cx_applicable(c, srt, e)]
+        shown_e = None
         for v, expected in zip(uni[srt], row["r"]):
             if expected == "X":
                 continue  # outside the documented domain (FileContains on a directory)
-            var = variants_for(e, v, rnd)
-            for cx in pick_cxs(srt, e, v, rnd):
+            cxs = [mc.CX_ASCII] + ([rnd.choice(others)] if others else [])
+            for cx in cxs:
                 fails = check_pair(e, v, expected, cx, pool, rnd, var)
+                want_sample = nontriv and rep.evaluations % sample_every == 17
                 rep.case(
                     sample={"matcher": show_expr(e), "value": show_value(v), "expected": expected, "text_as": cx.name, "constructions": len(var)}
-                    if nontriv and rep.evaluations % sample_every == 17
+                    if want_sample
                     else None,
                     nontrivial_key=sig_hash((e, v, cx.name)) if nontriv else None,
                 )
@@ -271,7 +280,7 @@ def replay_rows(rep, rows, uni, pool, rnd, source, sample_every=9973):
 def random_rows(rep, pool, rnd, n, maxdepth, source):
     """code -> spec: random typed pairs, verdict recorded from the real matcher, decided by TLC."""
     g = mc.Gen(rnd)
-    sorts = ["int", "str", "lint", "lint", "lstr", "dict", "dict", "obj", "exc", "call", "path"]
+    sorts = ["int", "str", "lint", "lint", "lstr", "llint", "llint", "dict", "dict", "obj", "exc", "call", "path"]
     rows = []
     meta = []
     while len(rows) < n:
@@ -376,12 +385,11 @@ def run(tier, pid="C06"):
 
         failures = []
         phases = rep.extra.setdefault("phase_wall_s", {})
-        for cfg, kw in jobs:
-            t0 = time.time()
-            rows, uni = mc.tlc_rows(cfg, "C06", rep, **kw)
+        for cfg, rows, uni, r in mc.tlc_rows_pipeline(jobs, "C06"):  # TLC of the next job runs during this replay
+            rep.add_tlc(r, cfg)
             t1 = time.time()
             failures += replay_rows(rep, rows, uni, pool, rnd, cfg)
-            phases[cfg] = {"tlc": round(t1 - t0, 1), "replay": round(time.time() - t1, 1)}
+            phases[cfg] = {"tlc": round(r.wall_s, 1), "replay": round(time.time() - t1, 1)}
         done = 0
         t0 = time.time()
         while done < nrandom:
